@@ -5,7 +5,7 @@ Tie, continued (see Props/Tie/DifflibGen.lean): statements for ALL inputs relati
   5. GetGroupedOpCodes relative to getOpCodes (`GetGroupedOpCodes_agrees`)
   6. chainB / NewMatcher: the `b2j` map agrees with `Difflib.b2j` for every element (`NewMatcher_b2j_agrees`)
   7. findLongestMatch: the inner loop (`inner_sim`) and the outer loop (`outer_sim`) agree with the hand port's `inner` / `outer`;
-     the two extension loops agree with `extBack` / `extFwd` within their iteration bounds (`back_sim`, `fwd_sim`)
+     the two extension loops agree with `extBack` / `extFwd` within their iteration bounds (`back_sim`, `fwd_sim`); the assembly `findLongestMatch_agrees`
 -/
 import GoSnaps.Props.Tie.DifflibGen
 import GoSnaps.Lemmas.Difflib
@@ -706,5 +706,131 @@ theorem fwd_sim (a b : List (List UInt8)) (ahi bhi i j : Nat) (F : Unit → Int 
 theorem forIn_fuel_done {σ : Type} (n : Nat) (s s' : σ) (F : Unit → σ → Option (ForInStep σ))
     (h : F () s = some (ForInStep.done s')) : forIn (m := Option) (GoDiff.fuelList (n + 1)) s F = some s' := by
   rw [GoDiff.fuelList, List.replicate_succ, List.forIn_cons, h]; rfl
+
+theorem bind_of_exists {ι σ τ : Type} {x : Option σ} {K : σ → Option τ} {r : Option τ} (X : ι → σ)
+    (h : ∃ j, x = some (X j)) (hk : ∀ j, K (X j) = r) : x.bind K = r := by
+  obtain ⟨j, e⟩ := h; rw [e]; exact hk j
+
+theorem bind_of_eq {σ τ : Type} {x : Option σ} {K : σ → Option τ} {r : Option τ} (v : σ)
+    (h : x = some v) (hk : K v = r) : x.bind K = r := by rw [h]; exact hk
+
+theorem index_pred {α : Type} (l : List α) (i : Nat) (h1 : 1 ≤ i) : GoSem.index l ((i : Int) - 1) = l[i - 1]? := by
+  have : ((i : Int) - 1) = ((i - 1 : Nat) : Int) := by omega
+  rw [this, GoSem.index_ofNat]
+
+theorem index_add {α : Type} (l : List α) (i k : Nat) : GoSem.index l ((i : Int) + (k : Int)) = l[i + k]? := by
+  have : ((i : Int) + (k : Int)) = ((i + k : Nat) : Int) := by omega
+  rw [this, GoSem.index_ofNat]
+
+theorem eqAt_some (a b : List (List UInt8)) (i j : Nat) (x y : List UInt8) (hx : a[i]? = some x) (hy : b[j]? = some y) :
+    Difflib.eqAt a b i j = (x == y) := by
+  simp [Difflib.eqAt, hx, hy]
+  by_cases h : x = y <;> simp [h]
+
+/-- **findLongestMatch agrees with the hand port** under the call pre-condition, for every matcher whose
+    sequences are `a`, `b`, whose `b2j` answers like `Difflib.b2j b` and whose junk set is empty (what
+    `NewMatcher a b` builds: `NewMatcher_fields`, `NewMatcher_b2j_agrees`); no panic, no bound hit -/
+theorem findLongestMatch_agrees (m : Matcher) (a b : List (List UInt8)) (hma : m.a = a) (hmb : m.b = b)
+    (hb2j : ∀ x, GoDiff.mapGet m.b2j x [] = (Difflib.b2j b x).map (fun (i : Nat) => (i : Int))) (hj : m.bJunk = [])
+    (alo ahi blo bhi : Nat) (h1 : alo ≤ ahi) (h2 : ahi ≤ a.length) (h3 : blo ≤ bhi) (h4 : bhi ≤ b.length) :
+    sequenceMatcher_findLongestMatch m alo ahi blo bhi = some (mI (Difflib.findLongestMatch a b alo ahi blo bhi)) := by
+  unfold sequenceMatcher_findLongestMatch
+  have hgt : ¬ ((alo : Int) > ahi) := by omega
+  have hr : GoSem.intRange (alo : Int) (ahi : Int) = GoSem.intRangeAux (alo : Int) (ahi - alo) := by
+    unfold GoSem.intRange; congr 1; omega
+  have hnr : ∀ {τ : Type} (K : PUnit.{1} → Option τ), GoDiff.noReturn.bind K = none := fun _ => rfl
+  simp only [hgt, hr, hnr, sequenceMatcher_isBJunk, hj, hma, hmb, GoDiff.setHas, Id.run, Option.bind_eq_bind, Option.bind_some,
+    Option.pure_def, decide_false, Bool.false_eq_true, if_false, List.not_mem_nil, pure, Bool.not_false, Bool.not_true]
+  have h0 : Difflib.BestOK a b alo ahi blo bhi ⟨alo, blo, 0⟩ :=
+    ⟨Nat.le_refl _, by simpa using h1, Nat.le_refl _, by simpa using h3, fun t ht => absurd ht (Nat.not_lt_zero _)⟩
+  have hA := Difflib.outer_ok (a := a) (b := b) (alo := alo) (blo := blo) (bhi := bhi) h2
+    (ahi - alo) alo [] ⟨alo, blo, 0⟩ (by omega) (Nat.le_refl _) (fun _ => rfl) (by intro _ p hp; simp at hp) h0
+  refine bind_of_exists (fun jl' => stI (Difflib.outer a b blo bhi (ahi - alo) alo [] ⟨alo, blo, 0⟩) jl')
+    (outer_sim a b alo ahi blo bhi h2 _ ?hF (ahi - alo) alo [] ⟨alo, blo, 0⟩ [] (by omega) (Nat.le_refl _) (fun _ => rfl)
+      (by intro _ p hp; simp at hp) h0 R_nil) ?cont
+  case hF =>
+    intro i x s hx
+    simp only [GoSem.index_ofNat, hx, Option.bind_some, hb2j]
+    rw [forIn_opt_steps _ _ (innerStepI blo bhi i s.2.2.2)]
+    · rfl
+    · intro j st
+      unfold innerStepI
+      by_cases c1 : j < (blo : Int) <;> by_cases c2 : j ≥ (bhi : Int) <;>
+        by_cases c3 : GoDiff.mapGet s.2.2.2 (j - 1) 0 + 1 > st.2.2.1 <;> simp [c1, c2, c3]
+  case cont =>
+    intro jl'
+    have hflm : Difflib.findLongestMatch a b alo ahi blo bhi =
+        (let best0 := Difflib.outer a b blo bhi (ahi - alo) alo [] ⟨alo, blo, 0⟩
+         let best1 := Difflib.extBack a b alo blo best0.i best0.j best0.k
+         ⟨best1.i, best1.j, Difflib.extFwd a b ahi bhi best1.i best1.j best1.k⟩) := rfl
+    rw [hflm]
+    generalize Difflib.outer a b blo bhi (ahi - alo) alo [] ⟨alo, blo, 0⟩ = best0 at hA ⊢
+    obtain ⟨bi, bj, bk⟩ := best0
+    have hB := Difflib.extBack_ok bi bj bk hA
+    simp only [stI]
+    have hbi : bi ≤ a.length := by have := hA.2.1; simp only at this; omega
+    have hbj : bj ≤ b.length := by have := hA.2.2.2.1; simp only at this; omega
+    refine bind_of_eq _ (back_sim a b alo blo _ ?hFb _ bi bj bk hbi hbj (by omega)) ?cont2
+    case hFb =>
+      intro i j k hi hj
+      by_cases c : alo < i ∧ blo < j
+      · obtain ⟨x, hx⟩ : ∃ x, a[i - 1]? = some x := ⟨a[i - 1]'(by omega), by simp⟩
+        obtain ⟨y, hy⟩ : ∃ y, b[j - 1]? = some y := ⟨b[j - 1]'(by omega), by simp⟩
+        have c' : (decide ((i : Int) > alo) && decide ((j : Int) > blo)) = true := by simp; omega
+        simp only [c', if_true, index_pred _ _ (show 1 ≤ i by omega), index_pred _ _ (show 1 ≤ j by omega), hx, hy,
+          Option.bind_some, eqAt_some a b _ _ x y hx hy, c, true_and]
+        by_cases hxy : x = y
+        · simp [hxy]; omega
+        · simp [hxy]
+      · have c' : (decide ((i : Int) > alo) && decide ((j : Int) > blo)) = false := by
+          simp only [Bool.and_eq_false_iff, decide_eq_false_iff_not]; omega
+        have c2 : ¬ (alo < i ∧ blo < j ∧ Difflib.eqAt a b (i - 1) (j - 1) = true) := fun hh => c ⟨hh.1, hh.2.1⟩
+        simp [c', c2, c]
+    case cont2 =>
+      generalize Difflib.extBack a b alo blo bi bj bk = best1 at hB ⊢
+      obtain ⟨ei, ej, ek⟩ := best1
+      simp only [Bool.not_true, Bool.false_eq_true, if_false]
+      have hei : ei + ek ≤ ahi := hB.2.1
+      have hej : ej + ek ≤ bhi := hB.2.2.2.1
+      refine bind_of_eq _ (fwd_sim a b ahi bhi ei ej _ ?hFf _ ek (by omega)) ?cont3
+      case hFf =>
+        intro k
+        by_cases c : ei + k < ahi ∧ ej + k < bhi
+        · obtain ⟨x, hx⟩ : ∃ x, a[ei + k]? = some x := ⟨a[ei + k]'(by omega), by simp⟩
+          obtain ⟨y, hy⟩ : ∃ y, b[ej + k]? = some y := ⟨b[ej + k]'(by omega), by simp⟩
+          have c' : (decide ((ei : Int) + k < ahi) && decide ((ej : Int) + k < bhi)) = true := by simp; omega
+          simp only [c', if_true, index_add, hx, hy, Option.bind_some, eqAt_some a b _ _ x y hx hy, c, true_and]
+          by_cases hxy : x = y
+          · simp [hxy]
+          · simp [hxy]
+        · have c' : (decide ((ei : Int) + k < ahi) && decide ((ej : Int) + k < bhi)) = false := by
+            simp only [Bool.and_eq_false_iff, decide_eq_false_iff_not]; omega
+          have c2 : ¬ (ei + k < ahi ∧ ej + k < bhi ∧ Difflib.eqAt a b (ei + k) (ej + k) = true) := fun hh => c ⟨hh.1, hh.2.1⟩
+          simp [c', c2]
+      case cont3 =>
+        generalize Difflib.extFwd a b ahi bhi ei ej ek = fk
+        simp only [Bool.not_true, Bool.false_eq_true, if_false]
+        refine bind_of_eq ((ei : Int), (ej : Int), (fk : Int), true) (forIn_fuel_done _ _ _ _ ?h3) ?cont4
+        case h3 =>
+          by_cases c : alo < ei ∧ blo < ej
+          · obtain ⟨y, hy⟩ : ∃ y, b[ej - 1]? = some y := ⟨b[ej - 1]'(by omega), by simp⟩
+            have c' : (decide ((ei : Int) > alo) && decide ((ej : Int) > blo)) = true := by simp; omega
+            simp [c', c, index_pred _ _ (show 1 ≤ ej by omega), hy]
+          · have c' : (decide ((ei : Int) > alo) && decide ((ej : Int) > blo)) = false := by
+              simp only [Bool.and_eq_false_iff, decide_eq_false_iff_not]; omega
+            simp [c', c]
+        case cont4 =>
+          simp only [Bool.not_true, Bool.false_eq_true, if_false]
+          refine bind_of_eq ((fk : Int), true) (forIn_fuel_done _ _ _ _ ?h4) ?cont5
+          case h4 =>
+            by_cases c : ei + fk < ahi ∧ ej + fk < bhi
+            · obtain ⟨y, hy⟩ : ∃ y, b[ej + fk]? = some y := ⟨b[ej + fk]'(by omega), by simp⟩
+              have c' : (decide ((ei : Int) + fk < ahi) && decide ((ej : Int) + fk < bhi)) = true := by simp; omega
+              simp [c', c, index_add, hy]
+            · have c' : (decide ((ei : Int) + fk < ahi) && decide ((ej : Int) + fk < bhi)) = false := by
+                simp only [Bool.and_eq_false_iff, decide_eq_false_iff_not]; omega
+              simp [c', c]
+          case cont5 =>
+            simp [mI]
 
 end GoSnaps.Tie.DifflibGen
